@@ -318,3 +318,100 @@ func H_C08_types_that_print_alike_lru1() { vC08PrintAlike(1) }
 func H_C08_types_that_print_alike_lru2() { vC08PrintAlike(2) }
 func H_C08_types_that_print_alike_map()  { vC08PrintAlike(3) }
 func H_C08_types_that_print_alike_adv()  { vC08PrintAlike(4) }
+
+// a type that has rules under one tag name and none under the other (and a type nesting it), seen first
+// under the tag that has none; then under the one that has; any cache
+type vTOne struct {
+	A string `valid:"required,r1"`
+	B string
+}
+
+type vTOneHolder struct {
+	N  vTOne    `valid:"exist" alt:"exist"`
+	L  []*vTOne `valid:"exist" alt:"exist"`
+	No string
+}
+
+func vC08PickCache(kind int) {
+	switch kind {
+	case 0:
+		cacheStructType = NewLRU(vndChoice("cap", 3))
+	case 1:
+		if vndBool("forgetful") {
+			cacheStructType = vNoCache{}
+		} else {
+			cacheStructType = &vMapCache{m: map[interface{}]interface{}{}}
+		}
+	default:
+		cacheStructType = &vAdvCache{}
+	}
+}
+
+func vC08OneTagOnly(cache, ncalls int) {
+	vUNoFail = true
+	vGlobalRules()
+	vC08PickCache(cache)
+	mk := func(i int) interface{} {
+		if vndBool("nested" + vNum(i)) {
+			return &vTOneHolder{N: vTOne{A: vStr("N.A" + vNum(i)), B: "b"}, L: []*vTOne{{A: vStr("L.A" + vNum(i)), B: "b"}}, No: "n"}
+		}
+		return &vTOne{A: vStr("A" + vNum(i)), B: "b"}
+	}
+	for i := 0; i < ncalls; i++ {
+		tag := []string{"alt", "valid", "other"}[vndChoice("tag"+vNum(i), 3)]
+		src := mk(i)
+		vULog = nil
+		err := ValidateStruct(src, tag)
+		r := vNewRef()
+		r.tag = tag
+		r.global = map[string]bool{"r1": true, "r2": true, "r3": true}
+		r.top(src)
+		vCheckAgainstRef("C08 call "+vNum(i)+" on a type with rules under one tag name only", err, r)
+	}
+	vReach("end")
+}
+
+func H_C08_rules_under_one_tag_only_lru()   { vC08OneTagOnly(0, 2) }
+func H_C08_rules_under_one_tag_only_map()   { vC08OneTagOnly(1, 2) }
+func H_C08_rules_under_one_tag_only_adv()   { vC08OneTagOnly(2, 2) }
+func H_C08T_rules_under_one_tag_only_lru3() { vC08OneTagOnly(0, 3) }
+
+// one rule-set object handed to consecutive calls and edited in between (a rule text replaced, an entry
+// swapped for another: the number of entries stays the same): each call is judged by what the rule set
+// holds at that moment
+func vC08EditedRM(cache, ncalls int) {
+	vUNoFail = true
+	vGlobalRules()
+	vC08PickCache(cache)
+	rm := RM{"A": "r3", "B": "required"}
+	edits := []func(){
+		func() { rm["A"] = "r2,r1" },
+		func() { delete(rm, "B"); rm["C"] = "required|need C" },
+		func() { rm["A"] = "" },
+		func() { rm["B"] = "r1" },
+	}
+	for i := 0; i < ncalls; i++ {
+		if i > 0 {
+			edits[vndChoice("edit"+vNum(i), len(edits))]()
+		}
+		o := &vT1{A: vStr("A" + vNum(i)), B: vStr("B" + vNum(i))}
+		vULog = nil
+		var err error
+		if vndBool("viaSetRule" + vNum(i)) {
+			err = NewVStruct().SetRule(rm).Valid(o)
+		} else {
+			err = Struct(o, rm)
+		}
+		r := vNewRef()
+		r.global = map[string]bool{"r1": true, "r2": true, "r3": true}
+		r.unscoped = vCopyRM(rm)
+		r.top(o)
+		vCheckAgainstRef("C08 call "+vNum(i)+" with a rule set edited between calls", err, r)
+	}
+	vReach("end")
+}
+
+func H_C08_same_rule_set_object_edited_lru()   { vC08EditedRM(0, 2) }
+func H_C08_same_rule_set_object_edited_map()   { vC08EditedRM(1, 2) }
+func H_C08_same_rule_set_object_edited_adv()   { vC08EditedRM(2, 2) }
+func H_C08T_same_rule_set_object_edited_lru3() { vC08EditedRM(0, 3) }
